@@ -4,6 +4,7 @@ use crate::case::*;
 use crate::dec::Dec;
 use crate::model::{self, Model, Preds};
 use crate::rx::*;
+use crate::rx::parse_supported;
 
 /// The mixed alphabet of DESIGN 3.5.
 pub const ALPHABET: &[char] = &[
@@ -90,7 +91,27 @@ impl GenParams {
     }
 }
 
+/// Characters that coincide with an alphabet character when a code point is truncated to 8, 16
+/// or 20 bits (lossy keys, `as u8`, packed tables).
+pub fn alias_chars() -> &'static [char] {
+    static A: std::sync::OnceLock<Vec<char>> = std::sync::OnceLock::new();
+    A.get_or_init(|| {
+        let mut v = Vec::new();
+        for c in ['a', 'b', '0', ' ', '\n', 'é', 'Ω', '€', '中'] {
+            for delta in [0x100u32, 0x10000, 0x100000] {
+                if let Some(x) = char::from_u32(c as u32 + delta) {
+                    v.push(x);
+                }
+            }
+        }
+        v
+    })
+}
+
 pub fn gen_char(d: &mut Dec) -> char {
+    if d.chance(3) {
+        return *d.pick(alias_chars());
+    }
     if d.chance(180) {
         ALPHABET[d.below(SIMPLE)]
     } else {
@@ -496,7 +517,13 @@ pub fn gen_input(d: &mut Dec, model: &Model, max_chars: usize) -> String {
                     w.push(gen_char(d));
                 }
             }
-            4 => w.push(*d.pick(FOREIGN)),
+            4 => {
+                if d.chance(60) {
+                    w.push(*d.pick(alias_chars()));
+                } else {
+                    w.push(*d.pick(FOREIGN));
+                }
+            }
             5 => w.push('\n'),
             _ => {
                 // pattern word followed by a lookahead word (or a near miss)
@@ -661,4 +688,40 @@ pub fn gen_peek_n_opt(d: &mut Dec, small: usize, huge: bool) -> usize {
         1 => *d.pick(&[17usize, 64, 65, 128, 129, 130, 200, 256, 257, 1000, 65_536]),
         _ => *d.pick(&[usize::MAX, usize::MAX / 2 + 1]),
     }
+}
+
+/// A pattern matching long runs and an input containing a token of 250-4200 bytes (around the
+/// 256 / 512 / 1024 / 4096 marks), ASCII with non-ASCII characters near its end, followed by short
+/// tokens.
+pub fn gen_long_token(d: &mut Dec) -> (Rx, String) {
+    let rx = parse_supported(*d.pick(&[r"[^#]+", r"[a-zéß€\n ]+", r"/\*([^*]|\*[^/])*\*/"]));
+    let comment = matches!(rx, Rx::Concat(_));
+    let target = match d.below(6) {
+        0 => 250 + d.below(12),
+        1 => 508 + d.below(12),
+        2 => 1020 + d.below(12),
+        3 => 4090 + d.below(12),
+        4 => 600 + d.below(200),
+        _ => 300 + d.below(4000),
+    };
+    let mut s = String::new();
+    if d.bool() {
+        s.push_str("ab#");
+    }
+    if comment {
+        s.push_str("/*");
+    }
+    let start = s.len();
+    while s.len() - start < target {
+        let near_end = s.len() - start + 12 > target;
+        let c = if near_end && d.bool() {
+            *d.pick(&['é', '€', 'ß'])
+        } else {
+            *d.pick(&['a', 'b', ' ', 'z', '\n', 'a', 'a'])
+        };
+        s.push(c);
+    }
+    s.push_str(if comment { "*/" } else { "#" });
+    s.push_str("\nab ab#");
+    (rx, s)
 }
